@@ -28,9 +28,20 @@ class MachineryError(Exception):
 
 
 def scratch(name, clean=True):
-    d = os.path.join(OUT, name)
-    if clean and os.path.isdir(d):
-        shutil.rmtree(d, ignore_errors=True)
+    """a scratch directory of this process: out/<name>.<pid>; leftovers of processes that no longer exist are removed
+    (two runs of the same check at the same time must not share a directory)"""
+    parent = os.path.join(OUT, os.path.dirname(name))
+    base = os.path.basename(name)
+    os.makedirs(parent, exist_ok=True)
+    for fn in os.listdir(parent):
+        if fn == base or fn.startswith(base + "."):
+            pid = fn[len(base) + 1:]
+            if fn != base and not pid.isdigit():
+                continue                    # another scratch name that merely starts like this one
+            dead = fn == base or int(pid) == os.getpid() or not os.path.exists("/proc/%s" % pid)
+            if dead and clean:
+                shutil.rmtree(os.path.join(parent, fn), ignore_errors=True)
+    d = os.path.join(parent, "%s.%d" % (base, os.getpid()))
     os.makedirs(d, exist_ok=True)
     return d
 
